@@ -1035,3 +1035,46 @@ Proof.
   { subst dial. rewrite app_length. cbn [length]. apply Nat.ltb_lt. lia. }
   rewrite El, Et. reflexivity.
 Qed.
+
+(** ** Bootstrap: resolution changes the address, never the host asked for or the port *)
+
+Definition plan_host (p : dial_plan) : str := match p with DialLiteral h _ | DialBootstrap h _ => h end.
+Definition plan_port (p : dial_plan) : N := match p with DialLiteral _ n | DialBootstrap _ n => n end.
+
+Lemma dial_plan_keeps is_ip t socks bs :
+  plan_host (dial_plan_of is_ip t socks bs) = t_host t /\ plan_port (dial_plan_of is_ip t socks bs) = t_port t.
+Proof.
+  unfold dial_plan_of. destruct (t_transport t), socks, (is_ip (t_host t)), bs; split; reflexivity.
+Qed.
+
+Lemma bootstrap_keeps_target is_ip addr dial socks bs t plan :
+  new_upstream_bs is_ip addr dial socks bs = Some (t, plan) ->
+  new_upstream is_ip addr dial socks = Some t /\ plan_host plan = t_host t /\ plan_port plan = t_port t
+  /\ (forall h p, plan = DialBootstrap h p ->
+        (socks = false \/ t_transport t = TH3 \/ t_transport t = TQuic) /\ is_ip (t_host t) = false /\ bs <> []).
+Proof.
+  unfold new_upstream_bs.
+  destruct ((0 <? length bs)%nat && negb (bootstrap_ok is_ip bs)); [discriminate|].
+  destruct (new_upstream is_ip addr dial socks) as [t'|]; [|discriminate].
+  intro H. injection H as <- <-.
+  split; [reflexivity|]. destruct (dial_plan_keeps is_ip t' socks (0 <? length bs)%nat) as [H1 H2].
+  split; [exact H1|]. split; [exact H2|].
+  unfold dial_plan_of. intros h p.
+  destruct (t_transport t'), socks, (is_ip (t_host t')), bs as [|x bs]; cbn; intro E; try discriminate E;
+    (split; [auto|split; [reflexivity|discriminate]]).
+Qed.
+
+(** on the grammar: whatever Opt.Bootstrap is, the port is the one written (or the default) *)
+Lemma bootstrap_keeps_port is_ip nm tr def e path dial socks bs t plan :
+  In (nm, tr, def) scheme_table ->
+  wf_ep e = true -> url_ok_ep e = true -> wf_path path = true -> dial_wf dial = true ->
+  new_upstream_bs is_ip (lit nm ++ lit "://" ++ render_ep e ++ path) (render_dial dial) socks bs = Some (t, plan) ->
+  plan_host plan = ep_host (eff_ep e dial) /\ plan_port plan = port_or (ep_port (eff_ep e dial)) def.
+Proof.
+  intros Hin He Hu Hp Hd H.
+  destruct (bootstrap_keeps_target _ _ _ _ _ _ _ H) as [Hn [Hh [Hpt _]]].
+  rewrite (dial_target is_ip nm tr def e path dial socks Hin He Hu Hp Hd) in Hn.
+  unfold expected_target in Hn.
+  destruct (needs_ip tr socks && negb (is_ip (ep_host (eff_ep e dial)))); [discriminate|].
+  injection Hn as <-. cbn in Hh, Hpt. auto.
+Qed.
